@@ -4,6 +4,7 @@ SHOWN = []      # (message, index in TRACE)
 UI = []
 EXT = []
 _installed = [False]
+REG = {'controller': None, 'ui_state': None, 'probe': None}
 
 
 def install():
@@ -34,6 +35,9 @@ def reset():
     del SHOWN[:]
     del UI[:]
     del EXT[:]
+    REG['controller'] = None
+    REG['ui_state'] = None
+    REG['probe'] = None
 
 
 def accessors():
@@ -44,6 +48,9 @@ def accessors():
         'out_msg': lambda: tuple(e['msg'] for e in TRACE),
         'shown': lambda: tuple(m for m, _ in SHOWN),
         'shown_at': lambda: tuple(i for _, i in SHOWN),
+        'probe': lambda: REG['probe'],
+        'controller': lambda: REG['controller'],
+        'ui_state': lambda: REG['ui_state'],
         'ui_trace': lambda: tuple(UI),
         'ext_trace': lambda: tuple(e[0] for e in EXT),
         'ext_text': lambda: tuple(e[1] for e in EXT),
